@@ -325,6 +325,15 @@ def main(tier, seed, replay=None):
                                                                                         "fallback": {"oneOf": [{"$ref": "#/components/schemas/card-pay"}, {"$ref": "#/components/schemas/bank.pay"}]},
                                                                                         "other": {"type": "array", "items": {"anyOf": [{"$ref": "#/components/schemas/bank.pay"}, {"$ref": "#/components/schemas/card-pay"}]}}}}}}},
                   ["ops:raw-schema-names-in-unions"]))
+    # names inferred for inline array-item unions / objects that collide with component names (EntryKind, OrderLine, ...)
+    cases.append(({"openapi": "3.1.0", "info": {"title": "t", "version": "1"}, "paths": {"/l": {"get": {"operationId": "get_log", "responses": {"200": {"description": "ok", "content": {"application/json": {"schema": {"$ref": "#/components/schemas/Log"}}}}}}}},
+                   "components": {"schemas": {"EntryKind": {"type": "object", "properties": {"code": {"type": "integer"}}}, "LogEntryKind": {"type": "string", "enum": ["a", "b"]},
+                                              "LogLine": {"type": "object", "properties": {"legacy": {"type": "string"}}},
+                                              "Log": {"type": "object", "properties": {"kind": {"$ref": "#/components/schemas/EntryKind"}, "kind2": {"$ref": "#/components/schemas/LogEntryKind"}, "line": {"$ref": "#/components/schemas/LogLine"},
+                                                                                       "entries": {"type": "array", "items": {"oneOf": [{"type": "string"}, {"type": "integer"}]}},
+                                                                                       "lines": {"type": "array", "items": {"type": "object", "properties": {"n": {"type": "integer"}}}},
+                                                                                       "kinds": {"type": "array", "items": {"anyOf": [{"type": "boolean"}, {"type": "number"}]}}}}}}},
+                  ["ops:inferred-names-collide-with-components"]))
     # a deep acyclic schema graph with exponentially many reference paths (40 tiers of 2 schemas, each referring to both of the next tier)
     tiers = 40
     dsch = {}
